@@ -217,6 +217,16 @@ def do_call(ns, coords, pot, name: str, rng, kind: str):
         ns.reconverge_minima(pot, rng.choice([1e-6, 1e-7]))
     elif name == "reconverge_landscape":
         ns.reconverge_landscape(pot, rng.choice([1e-6, 1e-7]))
+    elif name == "restart":
+        # the restart workflow of the example scripts: the network goes through its files and the exploration carries on
+        # (energies are written with five decimals: from here on a stored energy is the surface's value to 0.5e-5)
+        if ns.ktn.n_minima >= 1:                 # (an empty network has nothing to restart from)
+            import warnings
+            with warnings.catch_warnings():
+                warnings.simplefilter("ignore")   # numpy warns about the empty history file
+                ns.ktn.dump_network(".restart")
+                ns.ktn.reset_network()
+                ns.ktn.read_network(text_string=".restart")
 
 
 def state_of(ktn, tr: Trace) -> str:
@@ -246,8 +256,9 @@ def landscape_predicate(ktn, pot, cfg, tr: Trace) -> tuple[str, str] | None:
         if np.any(x < lo) or np.any(x > hi):
             return ("minimum-outside-box", f"minimum {i} at {x.tolist()} lies outside the box")
         f = pot.function(x.copy())
-        if not close(e, f):
-            return ("minimum-energy-mismatch", f"minimum {i}: stored energy {e!r} but the surface gives {f!r} at its coordinates")
+        if not (close(e, f) or abs(e - f) <= cfg.get("file_res", 0.0)):
+            return ("minimum-energy-mismatch", f"minimum {i}: stored energy {e!r} but the surface gives {f!r} at its coordinates"
+                    + (" (the network went through its files: 0.5e-5 allowed)" if cfg.get("file_res") else ""))
     for u, v in ktn.G.edges():
         x, e = np.asarray(ktn.get_ts_coords(u, v), float), float(ktn.get_ts_energy(u, v))
         if not (np.all(np.isfinite(x)) and math.isfinite(e)):
@@ -255,8 +266,9 @@ def landscape_predicate(ktn, pot, cfg, tr: Trace) -> tuple[str, str] | None:
         if np.any(x < lo) or np.any(x > hi):
             return ("ts-outside-box", f"transition state {u}-{v} at {x.tolist()} lies outside the box")
         f = pot.function(x.copy())
-        if not close(e, f):
-            return ("ts-energy-mismatch", f"transition state {u}-{v}: stored energy {e!r}, surface gives {f!r}")
+        if not (close(e, f) or abs(e - f) <= cfg.get("file_res", 0.0)):
+            return ("ts-energy-mismatch", f"transition state {u}-{v}: stored energy {e!r}, surface gives {f!r}"
+                    + (" (the network went through its files: 0.5e-5 allowed)" if cfg.get("file_res") else ""))
         g = np.asarray(pot.gradient(x.copy()), float)
         free = (x > lo) & (x < hi)
         if np.any(np.abs(g[free]) >= cfg["ts_tol"] * (1 + 1e-9)):
@@ -296,15 +308,19 @@ def pipeline_case(ctx: Ctx, kind: str, seed: int, ncalls: int, compare_model: bo
     rng = random.Random(seed)
     ns, ktn, coords, pot, tr, cfg = build(ctx, kind, rng, seed)
     calls = ["get_minima"] + [rng.choice(CALLS) for _ in range(ncalls - 1)]
+    if not compare_model and ncalls >= 3 and rng.random() < 0.5:
+        calls.insert(rng.randrange(1, len(calls)), "restart")
     lines, expected, done = ["new"], [], []
     for name in calls:
+        if name == "restart":
+            cfg["file_res"] = 5.0000001e-6
         n_ev, n_min0, n_rec0 = len(tr.events), len(tr.offered_min), len(tr.offered_rec)
         before = state_of(ktn, tr)
         try:
             do_call(ns, coords, pot, name, rng, kind)
         except Exception as e:
             ctx.fail(f"pipeline-call-raises:{name}", f"{name} raised {type(e).__name__}: {e} on {cfg['label']} "
-                     f"(seed {seed}, after {done})", {"surface": kind, "seed": seed, "calls": done + [name]})
+                     f"(seed {seed}, after {done})", {"surface": kind, "seed": seed, "calls": done + [name], "ncalls": ncalls})
             return
         done.append(name)
         after = state_of(ktn, tr)
@@ -315,7 +331,7 @@ def pipeline_case(ctx: Ctx, kind: str, seed: int, ncalls: int, compare_model: bo
         r = landscape_predicate(ktn, pot, cfg, tr)
         if r:
             ctx.fail(r[0], f"{r[1]} — after {done} on {cfg['label']} (seed {seed})",
-                     {"surface": kind, "seed": seed, "calls": list(done)})
+                     {"surface": kind, "seed": seed, "calls": list(done), "ncalls": ncalls})
             return
         if compare_model:
             lines.extend(tr.events[n_ev:])
@@ -385,7 +401,8 @@ def atomic_case(ctx: Ctx, seed: int, with_ts: bool = False) -> None:
                     dtype=float)[:n]
     start = (base + 0.05 * np.random.rand(n, 3)).ravel()
     coords = AtomicCoordinates(["C"] * n, start.copy())
-    pot = LennardJones()
+    prng = random.Random(seed * 31 + 7)          # well depth and length scale other than one on most seeds
+    pot = LennardJones() if seed % 3 == 0 else LennardJones(epsilon=prng.choice([1.0, 0.5, 3.0]), sigma=prng.choice([2.0, 0.7, 1.3]))
     sim = MolecularSimilarity(0.05, 1e-3, weighted=False)
     ktn = KineticTransitionNetwork()
     step = AtomicPerturbation(max_displacement=rng.choice([1.5, 2.0]), max_atoms=rng.choice([1, 2, 3]))
@@ -507,7 +524,7 @@ def replay(ctx: Ctx, data: dict) -> bool:
         for f in ctx.failures:
             print(f"  {f.key}: {f.what}")
         return not ctx.failures
-    pipeline_case(ctx, data["surface"], data["seed"], len(data["calls"]), False)
+    pipeline_case(ctx, data["surface"], data["seed"], int(data.get("ncalls", len(data["calls"]))), False)
     for f in ctx.failures:
         print(f"  {f.key}: {f.what}")
     return not ctx.failures
